@@ -11,7 +11,7 @@ import sys
 import time
 
 from vcommon import Run, VERIF
-from xhair import Ob, replay_call, replay_file, run_obligations
+from xhair import Ob, replay_call, replay_file, run_obligations, run_probes
 
 H = 'C13_dataset.py'
 ROWALPHA_N = 6          # len(C13_dataset.ROWALPHA) = '1.-, TAB'
@@ -237,6 +237,10 @@ def main():
     check_pandas_assumption(run)
     run_obligations(run, obs, confirm=confirm)
     z3_obligations(run)
+    # concrete companions (sampling, not solver verdicts): the kernel decided above is what the real reader composes,
+    # including the pandas assembly (padding, surplus columns, exact float conversion) and the IGNORE/ACCEPT filters
+    run_probes(run, [(Ob('assembly', 'C13_e2e.py', 'assembly_all', env={}), 'assembly_all()'),
+                     (Ob('filters', 'C13_e2e.py', 'filters_all', env={}), 'filters_all()')])
     for o in obs[:4] + [o for o in obs if o.name.startswith(('rowsplit[len=4', 'prefilter_comments', 'columns'))][:6]:
         run.sample(dict(obligation=o.name, harness=o.file, func=o.func, env=o.env))
     run.finish(coverage=dict(
